@@ -179,4 +179,113 @@ theorem srvReqInfo_no_panic (f : S_devicefinder_Default) (srv : S_agd_Server) (r
   simp only [hsrv]
   by_cases hp : srv.Protocol = 3 <;> simp [hp] <;> (repeat' split) <;> simp
 
+/-! ## DoH: userinfo before the URL path -/
+
+/-- With userinfo the identifier is the validated *user name* and nothing else: never an extended
+human ID, and the URL (its data or its error) has no influence.  An invalid user name is an error
+without identifier. -/
+theorem doh_userinfo_first (f : S_devicefinder_Default) (ri : Option S_dnsserver_RequestInfo) (user : String)
+    (newID : String → String × Option String) (url url' : DD) :
+    Default_deviceDataForDoH f ri true user newID url =
+      (if (newID user).2.isSome then ("", none, some "newDeviceDataError(err, \"basic auth\")")
+       else ((newID user).1, none, none)) ∧
+    Default_deviceDataForDoH f ri true user newID url = Default_deviceDataForDoH f ri true user newID url' := by
+  simp [Default_deviceDataForDoH]
+
+/-- Without userinfo the data are the URL path's; a path error is an error without identifier. -/
+theorem doh_no_userinfo_url (f : S_devicefinder_Default) (ri : Option S_dnsserver_RequestInfo) (user : String)
+    (newID : String → String × Option String) (url : DD) :
+    Default_deviceDataForDoH f ri false user newID url =
+      (if url.2.2.isSome then ("", none, some "newDeviceDataError(err, \"http url path\")")
+       else (url.1, url.2.1, none)) := by
+  simp [Default_deviceDataForDoH]
+
+/-- `deviceDataFromDoHURL`: the identifier text is the *second* path element of a two-element path;
+a one-element path carries nothing; a path error is passed on.  The index never panics, for any
+result of `pathElements`. -/
+theorem dohURL_structure (f : S_devicefinder_Default) (path : String) (pe : String → List String × Option String)
+    (parse : String → DD) :
+    Default_deviceDataFromDoHURL f path pe parse =
+      some (if (pe path).2.isSome then ("", none, (pe path).2)
+        else match (pe path).1 with
+          | [_, e1] => parse e1
+          | _ => ("", none, none)) := by
+  unfold Default_deviceDataFromDoHURL
+  rcases h : (pe path).1 with _ | ⟨a, _ | ⟨b, _ | ⟨c, r⟩⟩⟩ <;> simp [h, goIndex?] <;> split <;> simp
+  omega
+
+/-! ## `pathElements` -/
+
+theorem splitListN_ne_nil (sep : List Char) (fuel : Nat) (n : Int) (s : List Char) : splitListN sep fuel n s ≠ [] := by
+  cases fuel with
+  | zero => simp [splitListN]
+  | succ k =>
+    unfold splitListN
+    split
+    · simp
+    · split <;> simp
+
+theorem goSplit_ne_nil (s sep : String) : goSplit s sep ≠ [] := by
+  simp [goSplit, goSplitN, splitListN_ne_nil]
+
+/-- The decision list of `pathElements` on the split path, written out (compare
+`Agd.Device.pathElements`, which has the same shape on `cleanElems`). -/
+def peSpec (els0 : List String) : List String × Option String :=
+  match (if els0.head? = some "" then els0.tail else els0) with
+  | [] => ([], some "fmt.Errorf(\"path elems: %w\", errors.ErrNoValue)")
+  | e0 :: rest =>
+    if e0 = "" then ([], some "fmt.Errorf(\"path elems: %w\", errors.ErrNoValue)")
+    else if rest.length > 1 then ([], some "fmt.Errorf(\"%d extra path elems\", l-2)")
+    else if !(goHasSuffix "/dns-query" e0) && !(goHasSuffix "/resolve" e0) then ([], some "not a dns path")
+    else (e0 :: rest, none)
+
+/-- `pathElements` never panics (its `elems[0]` reads are guarded by `strings.Split` returning at
+least one element and by the `l == 0` test after the re-slice) and is that decision list, for every
+path and every `path.Clean`. -/
+theorem pathElements_eq (p : String) (clean : String → String) :
+    pathElements p clean = some (peSpec (goSplit (clean p) "/")) := by
+  unfold pathElements peSpec
+  rcases h : goSplit (clean p) "/" with _ | ⟨a, _ | ⟨b, _ | ⟨c, r⟩⟩⟩
+  · exact absurd h (goSplit_ne_nil _ _)
+  · by_cases ha : a = "" <;> simp [ha, goIndex?]
+    cases goHasSuffix "/dns-query" a <;> cases goHasSuffix "/resolve" a <;> simp
+  · by_cases ha : a = "" <;> by_cases hb : b = "" <;> simp [ha, hb, goIndex?] <;>
+      cases goHasSuffix "/dns-query" a <;> cases goHasSuffix "/resolve" a <;>
+      cases goHasSuffix "/dns-query" b <;> cases goHasSuffix "/resolve" b <;> simp
+  · have e3 : ((r.length : Int) + 1 + 1 + 1).toNat = r.length + 3 := by omega
+    have c3 : (1 : Int) ≤ (r.length : Int) + 1 + 1 + 1 := by omega
+    have n3 : ¬ ((r.length : Int) + 1 + 1 + 1 = 0) := by omega
+    have g3 : (2 : Int) < (r.length : Int) + 1 + 1 + 1 := by omega
+    by_cases ha : a = "" <;> by_cases hb : b = "" <;> simp [ha, hb, goIndex?, e3, c3, n3, g3]
+    have n2 : ¬ ((r.length : Int) + 1 + 1 = 0) := by omega
+    by_cases hr : 0 < r.length
+    · have : (2 : Int) < (r.length : Int) + 1 + 1 := by omega
+      simp [hr, this, n2]
+    · have : ¬ (2 : Int) < (r.length : Int) + 1 + 1 := by omega
+      simp [hr, this]
+      cases goHasSuffix "/dns-query" b <;> cases goHasSuffix "/resolve" b <;> simp [n2]
+
+theorem pathElements_no_panic (p : String) (clean : String → String) : pathElements p clean ≠ none := by
+  simp [pathElements_eq]
+
+/-- The documented guarantee `deviceDataFromDoHURL` relies on: without error there are one or two
+elements, the first is non-empty and is a suffix of `/dns-query` or `/resolve`; with an error there
+are no elements. -/
+theorem peSpec_ok (els0 : List String) :
+    ((peSpec els0).2 = none → ((peSpec els0).1.length = 1 ∨ (peSpec els0).1.length = 2) ∧
+        ∃ e0, (peSpec els0).1.head? = some e0 ∧ e0 ≠ "" ∧
+          (goHasSuffix "/dns-query" e0 = true ∨ goHasSuffix "/resolve" e0 = true)) ∧
+    ((peSpec els0).2 ≠ none → (peSpec els0).1 = []) := by
+  unfold peSpec
+  split
+  · simp
+  · rename_i e0 rest _
+    by_cases h0 : e0 = "" <;> by_cases h1 : rest.length > 1 <;> simp [h0, h1]
+    cases hq : goHasSuffix "/dns-query" e0 <;> cases hr : goHasSuffix "/resolve" e0 <;> simp [h0]
+    all_goals (simp [hq, hr]; rcases rest with _ | ⟨x, _ | ⟨y, t⟩⟩ <;> simp_all)
+
+example : peSpec ["", "dns-query", "dev1"] = (["dns-query", "dev1"], none) := by decide
+example : (peSpec ["", "dns-query", "a", "b"]).2 ≠ none := by decide
+example : (peSpec ["", "other"]).2 = some "not a dns path" := by decide
+
 end Agd.Tie.TrC03
